@@ -30,6 +30,7 @@ type Out struct {
 	classes  map[string]int
 	samples  []json.RawMessage
 	sampleOf map[string]bool
+	extra    map[string]any
 }
 
 func newOut(path string) *Out {
@@ -123,5 +124,5 @@ func main() {
 	}
 	o := newOut(*out)
 	g(o, rand.New(rand.NewSource(*seed)), *tier)
-	o.Close(nil)
+	o.Close(o.extra)
 }
